@@ -91,9 +91,12 @@ def units(ctx, prop):
         for sc in scs:
             for spec in fam2:
                 for st in range(len(STRETCH)):
-                    us.append(("pess", prop, spec, 2, sc, st, ctx.seed, ctx.thorough))
+                    us.append(("pess", prop, spec, 2, sc, st, ctx.seed, ctx.thorough, 0))
+                    if ctx.thorough or st == 0:
+                        us.append(("pess", prop, spec, 2, sc, st, ctx.seed, ctx.thorough, 1))
         for spec in fam3:
-            us.append(("pess", prop, spec, 3, scs[0], 0, ctx.seed, ctx.thorough))
+            us.append(("pess", prop, spec, 3, scs[0], 0, ctx.seed, ctx.thorough, 0))
+            us.append(("pess", prop, spec, 3, scs[0], 0, ctx.seed, ctx.thorough, 1))
     return us
 
 
@@ -107,11 +110,23 @@ def _mk_rect(l, u):
     return RectangularConfidenceRegion(len(l), np.array(l, float), np.array(u, float))
 
 
-def _offset(seed, m, sc):
+FAR = 2.0 ** 17  # far embedding: coordinates ~1.3e5 x the region size (translation invariance of the cone order)
+
+
+def _offset(seed, m, sc, far=0):
     off = lattice.offset_for(seed, m, sc)
     if sc < 1e-3:
         off = off + 1.0  # tiny regions at coordinates ~ 1 (late-run regime)
+    if far:
+        off = off + FAR * sc * np.array([1.0, -1.0, 1.0][:m])
     return off
+
+
+def tau_numpy(*arrays):
+    """tolerance for predicates implemented in plain numpy (rectangle is_dominated, check_dominates):
+    their rounding error is ~1e-15*|data|, so 1e-10*|data| is a wide margin (the cvxpy-based
+    predicates keep 1e-6*|data|, the solvers' feasibility tolerance being ~1e-8 relative)"""
+    return oracles.tau_for(*arrays) * 1e-4
 
 
 def rect_case(prop, spec, m, sc, st, seed, i1, i2, slabel, res, n_lat):
@@ -326,25 +341,27 @@ def run_errors(prop, res):
 # C11
 
 
-def pess_case(spec, m, sc, st, seed, i1, i2, sub, res):
+def pess_case(spec, m, sc, st, seed, i1, i2, sub, res, far=0):
     from vopy.confidence_region import confidence_region_check_dominates
 
     order = cones.make_order(spec)
     W = order.ordering_cone.W
     rects = lattice.rectangles(m, 2 if m == 2 else 1, degenerate=True)
-    off = _offset(seed, m, sc)
+    off = _offset(seed, m, sc, far)
     stretch = STRETCH[st] if m == 2 else (1.0,) * m
     l1, u1 = embed(*rects[i1], sc, off, stretch)
     l2, u2 = embed(*rects[i2], sc, off, stretch)
     # seed-derived sub-step shift of the second rectangle keeps lattice-aligned cones off the boundary
     shift = np.array([(sub % 3 - 1) * 0.125, ((sub // 3) % 3 - 1) * 0.125, 0.0625][:m]) * sc * np.asarray(stretch)
     l2, u2 = l2 + shift, u2 + shift
-    tau = oracles.tau_for(l1, u1, l2, u2)
+    tau = tau_numpy(l1, u1, l2, u2)
     R1, R2 = _mk_rect(l1, u1), _mk_rect(l2, u2)
-    case = {"mode": "pess", "spec": spec, "m": m, "sc": sc, "st": st, "seed": seed, "i1": i1, "i2": i2, "sub": sub}
+    case = {"mode": "pess", "spec": spec, "m": m, "sc": sc, "st": st, "seed": seed, "i1": i1, "i2": i2, "sub": sub, "far": far}
     res["evaluations"] += 1
     got = bool(confidence_region_check_dominates(order, R1, R2))
-    vals = oracles.rect_pess_values(W, l1, u1, l2, u2)
+    # the cone order is translation invariant: the oracle works on coordinates relative to l1 (exact for
+    # dyadic data), so its own vertex enumeration is not affected by the size of the offset
+    vals = oracles.rect_pess_values(W, l1 - l1, u1 - l1, l2 - l1, u2 - l1)
     vmin = min(vals)
     holds = vmin > tau
     fails = vmin < -tau
@@ -369,7 +386,7 @@ def pess_case(spec, m, sc, st, seed, i1, i2, sub, res):
 
 
 def run_pess(unit, res):
-    _, prop, spec, m, sc, st, seed, thorough = unit
+    _, prop, spec, m, sc, st, seed, thorough, far = unit
     core.import_vopy()
     rects = lattice.rectangles(m, 2 if m == 2 else 1, degenerate=True)
     subs = range(9) if thorough else [(seed + k) % 9 for k in (0, 4)]
@@ -379,13 +396,13 @@ def run_pess(unit, res):
     for i1 in i1s:
         for i2 in i2s:
             for sub in subs:
-                v = pess_case(spec, m, sc, st, seed, i1, i2, sub, res)
+                v = pess_case(spec, m, sc, st, seed, i1, i2, sub, res, far)
                 if v is not None:
                     res["violations"].append(v)
                     nv += 1
                     if nv >= 4:
                         return
-    res["outcomes"].append(f"C11:{cones.name(spec)}:{sc}:{st}:{res['counters'].get('pess_holds', 0)}")
+    res["outcomes"].append(f"C11:{cones.name(spec)}:{sc}:{st}:{far}:{res['counters'].get('pess_holds', 0)}")
     res["samples"].append({"kind": "pess", "cone": cones.name(spec), "scale": sc, "rect_pairs": len(rects) ** 2, "subshifts": list(subs)})
 
 
@@ -420,7 +437,7 @@ def replay_case(case):
         v = ell_case(case["prop"], _spec(case["spec"]), case["sc"], case["sh1"], case["seed"], case["r1"], case["cx"], case["cy"],
                      case["sh2"], case["r2"], case["slack"], res)
     elif case["mode"] == "pess":
-        v = pess_case(_spec(case["spec"]), case["m"], case["sc"], case["st"], case["seed"], case["i1"], case["i2"], case["sub"], res)
+        v = pess_case(_spec(case["spec"]), case["m"], case["sc"], case["st"], case["seed"], case["i1"], case["i2"], case["sub"], res, case.get("far", 0))
     elif case["mode"] == "errors":
         run_errors(case["prop"], res)
         return res["violations"]
